@@ -28,6 +28,8 @@ var c05Exceptions = []boundsException{
 		"txt is never empty: the Text instruction is emitted only for non-empty text (obligation R-4 compiler.emitText#non-empty-argument of this same check: every call of functionBuilder.emitText is dominated by len(txt) != 0, and flushText concatenates those chunks)"},
 	{"runtime.(*renderer).Text#$1[1:]",
 		"same as txt[0]: under txt[0] == '?', so len(txt) ≥ 1"},
+	{"runtime.jsStringEscape#$1[$2:$3]",
+		"range over a string: the next key is i plus the UTF-8 width of c; last becomes i+1 only when the rune has an entry in jsStringEscapes (indexes below 0x80: one byte) and i+3 for U+2028/U+2029 (three bytes), so last never exceeds the next key and s[last:i] has last ≤ i"},
 	{"runtime.jsStringEscape#$1[$2:]",
 		"last is i+1, or i+3 when the rune decoded at i by `for i, c := range s` is U+2028/U+2029, which occupy exactly three bytes of s starting at i; hence last ≤ len(s)"},
 }
